@@ -29,6 +29,8 @@ EXTENDS Data, Int32, Sequences, FiniteSets, FiniteSetsExt, TLC
 Units == 1..Len(BPs)
 Has(r, k) == k \in DOMAIN r
 Get(r, k, d) == IF Has(r, k) THEN r[k] ELSE d
+\* Factorio's defaults of the boolean entity properties the corpus sets: a property whose value IS the default may be left out of an export
+PropDefaults == [send_to_train |-> TRUE, read_from_train |-> FALSE, select_max |-> TRUE, always_on |-> FALSE, use_colors |-> FALSE]
 SeqSet(s) == {s[i] : i \in DOMAIN s}
 Wild == {"signal-each", "signal-anything", "signal-everything"}
 NoSig == "<none>"
